@@ -241,36 +241,129 @@ theorem c18_kwargs_history_setdefault_counterexample : ¬ c18_kwargs_history_set
 
 example : kwHistory kwCall (some 9) [3, 0, 7, 7, 1] = [some 3, none, some 7, some 7, some 1] := by decide
 
-/-! ### the cached candidate table across `change_shg_mgr` -/
+/-! ### the cached candidate table across `change_shg_mgr` and in-place modifications of the manager -/
 
-/-- **invariant**: the constructor and every operation leave "cached table = table of the manager in force" -/
-theorem c18_cache_invariant (s : GenSt) (h : s.cached = s.mgr) (op : GenOp) :
-    (genStep s op).1.cached = (genStep s op).1.mgr := by
-  cases op <;> simp [genStep, h]
-
-/-- **refinement**: for every history of `generate_signal_events` / `mu2flux` / `change_shg_mgr` calls on one
-generator object, each call works with the candidates of the source hypothesis groups in force at that moment
-(no stale table, weight sum or CDF). -/
-theorem c18_cache_fresh (ops : List GenOp) (s : GenSt) (h : s.cached = s.mgr) :
-    genRun genStep s ops = genSpec s.mgr ops := by
+/-- **refinement**: for every history of `generate_signal_events` / `mu2flux` / `change_shg_mgr` calls and in-place
+modifications of manager objects, each call works with the candidates of the manager — *object and content* —
+that was in force at the last `change_shg_mgr` (no stale table, weight sum or CDF; handing over the object the
+generator already holds rebuilds, too). -/
+theorem c18_cache_fresh (ops : List GenOp) (s : GenSt) :
+    genRun genStep s ops = genSpec s.ver s.cached ops := by
   induction ops generalizing s with
   | nil => rfl
   | cons op ops ih =>
     cases op with
-    | use => simp only [genRun, genSpec, genStep, h]; rw [ih s h]
-    | changeMgr m => simp only [genRun, genSpec, genStep]; rw [ih ⟨m, m⟩ rfl]
+    | use => simp only [genRun, genSpec, genStep]; rw [ih s]
+    | changeMgr m => simp only [genRun, genSpec, genStep]; rw [ih]
+    | mutate m => simp only [genRun, genSpec, genStep]; rw [ih]
+
+/-- right after `change_shg_mgr(m)` the cache is the current content of `m` -/
+theorem c18_cache_invariant (s : GenSt) (m : Nat) :
+    (genStep s (.changeMgr m)).1.cached = (m, (genStep s (.changeMgr m)).1.ver m) ∧
+    (genStep s (.changeMgr m)).1.mgr = m := by
+  simp [genStep]
 
 def c18_cache_fresh_stale_statement : Prop :=
-  ∀ (ops : List GenOp) (s : GenSt), s.cached = s.mgr → genRun genStepStale s ops = genSpec s.mgr ops
+  ∀ (ops : List GenOp) (s : GenSt), genRun genStepStale s ops = genSpec s.ver s.cached ops
 
 theorem c18_cache_fresh_stale_counterexample : ¬ c18_cache_fresh_stale_statement := by
   intro h
-  have := h [.changeMgr 1, .use] ⟨0, 0⟩ rfl
+  have := h [.changeMgr 1, .use] ⟨0, fun _ => 0, (0, 0)⟩
   revert this
   decide
 
-example : genRun genStep ⟨0, 0⟩ [.use, .changeMgr 1, .use, .changeMgr 0, .changeMgr 1, .use] = [0, 1, 1, 0, 1, 1] := by
+/-- the claim for a `change_shg_mgr` that skips the rebuild when handed the object it already holds -/
+def c18_cache_fresh_same_object_statement : Prop :=
+  ∀ (ops : List GenOp) (s : GenSt), genRun genStepSameObj s ops = genSpec s.ver s.cached ops
+
+/-- **the two statements of `change_source`**: replace a source inside the manager, hand the same manager over
+again — with the identity short-cut the next injection still uses the candidates of the old source -/
+theorem c18_cache_fresh_same_object_counterexample : ¬ c18_cache_fresh_same_object_statement := by
+  intro h
+  have := h [.mutate 0, .changeMgr 0, .use] ⟨0, fun _ => 0, (0, 0)⟩
+  revert this
   decide
+
+example : genRun genStep ⟨0, fun _ => 0, (0, 0)⟩ [.use, .mutate 0, .use, .changeMgr 0, .use, .changeMgr 1, .mutate 1, .use]
+    = [(0, 0), (0, 0), (0, 0), (0, 1), (0, 1), (1, 0), (1, 0), (1, 0)] := by decide
+
+/-! ### merging the signal into the events handed in (`Analysis.generate_signal_events`) -/
+
+namespace C18
+
+theorem mergeSig_length : ∀ (sig : List (Nat × Nat)) (st st' : List (Nat × Option Nat)),
+    mergeSig st sig = some st' → st'.length = st.length
+  | [], st, st', h => by simp only [mergeSig, Option.some.injEq] at h; subst h; rfl
+  | (d, k) :: rest, st, st', h => by
+    simp only [mergeSig] at h
+    split at h
+    · exact absurd h (by simp)
+    · rw [mergeSig_length rest _ st' h, List.length_set]
+
+theorem sum_set_counts (st : List (Nat × Option Nat)) (d : Nat) (e : Nat × Option Nat) (k : Nat)
+    (h : st[d]? = some e) : ((st.set d (mergeOne e k)).map (·.1)).sum = (st.map (·.1)).sum + k := by
+  induction st generalizing d with
+  | nil => simp at h
+  | cons x xs ih =>
+    cases d with
+    | zero =>
+      simp only [List.getElem?_cons_zero, Option.some.injEq] at h
+      subst h
+      simp only [List.set_cons_zero, List.map_cons, List.sum_cons, mergeOne]; omega
+    | succ d =>
+      simp only [List.getElem?_cons_succ] at h
+      simp only [List.set_cons_succ, List.map_cons, List.sum_cons, ih d h]; omega
+
+/-- total length of the event arrays (`None` = no array = 0 events) -/
+def lenSum (st : List (Nat × Option Nat)) : Nat := (st.map (fun e => e.2.getD 0)).sum
+
+theorem sum_set_lens (st : List (Nat × Option Nat)) (d : Nat) (e : Nat × Option Nat) (k : Nat)
+    (h : st[d]? = some e) : lenSum (st.set d (mergeOne e k)) = lenSum st + k := by
+  unfold lenSum
+  induction st generalizing d with
+  | nil => simp at h
+  | cons x xs ih =>
+    cases d with
+    | zero =>
+      simp only [List.getElem?_cons_zero, Option.some.injEq] at h
+      subst h
+      simp only [List.set_cons_zero, List.map_cons, List.sum_cons, mergeOne]
+      cases x.2 <;> simp <;> omega
+    | succ d =>
+      simp only [List.getElem?_cons_succ] at h
+      simp only [List.set_cons_succ, List.map_cons, List.sum_cons, ih d h]; omega
+
+end C18
+
+/-- **merging conserves the counts for every bookkeeping handed in** — also when a handed-in count differs from
+the length of the handed-in array (pre-selected background): the per-dataset counts grow in total by exactly the
+number of signal events, and so do the event arrays; no dataset entry is lost. -/
+theorem c18_analysis_merge (st st' : List (Nat × Option Nat)) (sig : List (Nat × Nat))
+    (h : mergeSig st sig = some st') :
+    st'.length = st.length ∧
+    (st'.map (·.1)).sum = (st.map (·.1)).sum + (sig.map (·.2)).sum ∧
+    C18.lenSum st' = C18.lenSum st + (sig.map (·.2)).sum := by
+  refine ⟨C18.mergeSig_length sig st st' h, ?_⟩
+  induction sig generalizing st with
+  | nil => simp only [mergeSig, Option.some.injEq] at h; subst h; simp
+  | cons dk rest ih =>
+    obtain ⟨d, k⟩ := dk
+    simp only [mergeSig] at h
+    split at h
+    · exact absurd h (by simp)
+    · rename_i e he
+      obtain ⟨a1, a2⟩ := ih _ h
+      rw [a1, a2, C18.sum_set_counts st d e k he, C18.sum_set_lens st d e k he]
+      simp only [List.map_cons, List.sum_cons]
+      constructor <;> omega
+
+/-- recomputing the count from the array length loses the pre-selected background: handed in (5 events counted,
+3 in the array), 2 signal events: the code-shaped merge gives 7, the length-based one 5 -/
+theorem c18_analysis_merge_len_counterexample :
+    (mergeOne (5, some 3) 2).1 = 5 + 2 ∧ (mergeOneLen (5, some 3) 2).1 ≠ 5 + 2 := by decide
+
+example : mergeSig [(5, some 3), (0, none), (4, some 4)] [(0, 2), (2, 1), (1, 3)]
+    = some [(7, some 5), (3, some 3), (5, some 5)] := by decide
 
 /-! ## 3. declination bands and candidate table -/
 
